@@ -22,7 +22,22 @@ META = {
                 text="round-trip testing of every encoder (Ether/IPv4/IPv6/UDP/ICMP echo/ARP/DHCPv4/DNS query/NDP NS+NA) through both the library's views and independent decoders, length-consistency of every layer, composition checked through Parse, and the AppendPayload capacity contract with guard bytes around the buffer",
                 note="trusts the ref decoders; buffer capacities from the documented minimum up to EthMaxSize; DHCP option maps limited to encodings that fit the encoder's 1024-byte scratch area; nil payloads are not passed to IP6.AppendPayload (treated by the library as a caller error)",
                 tech="property-based round-trip testing (rapid) with an independent decoder as oracle"),
-    "C04": dict(level="exploration", text="", note="", tech=""),
+    "C04": dict(level="exploration",
+                text="model-based testing of the host tracker: every operation sequence up to depth 4 (quick) / 5 (thorough) over a 15-symbol alphabet on a fresh session (exhaustive for that sub-space) plus rapid-drawn histories of 5..60 operations over all MAC/IP classes, 3 LAN prefixes and 3 deadline triples; after every operation FindIP, GetHosts, IPAddrs, FindByMAC and FindMACEntry are compared with a ~150-line reference model written from the statement; time is virtual (LastSeen is written through the exported field, purge runs through the VerifPurge hook)",
+                note="trusts the reference model; virtual time replaces the wall clock (the probe goroutine purge starts is not awaited); the own-host entry loses its never-expire stamp when a forged ARP names it as sender - the model mirrors that (DESIGN.md section 23)",
+                tech="model-based stateful property testing (rapid op lists as data + interpreter) + bounded-exhaustive sequence enumeration"),
+    "C05": dict(level="exploration",
+                text="invariant checking over generated histories: the exported host and MAC tables are walked after every operation of exhaustive depth-3/4 sequences, rapid histories including SetDHCPv4IPOffer/Capture/Release, and dedicated delete-of-middle-element / re-binding chains; PrintTable is run each time",
+                note="the tables are read at quiescent points of a single-goroutine history; the quiescent points of concurrent executions are checked under C09",
+                tech="stateful property testing with a structural invariant oracle (rapid) + bounded-exhaustive sequence enumeration"),
+    "C06": dict(level="exploration",
+                text="transcript comparison: the notifications drained after every step of exhaustive depth-4/5 sequences and rapid histories are compared (multiset, offline-before-online order, content) with the transcript the statement prescribes, computed by the reference model",
+                note="a re-bound address may or may not be reported offline for its previous holder (statement silent: lenient); one history shape is a listed known finding and is excluded from the random generator by construction while a dedicated sub-check keeps exercising it",
+                tech="model-based stateful property testing (rapid) with a notification-ledger oracle + bounded-exhaustive sequence enumeration"),
+    "C20": dict(level="exploration",
+                text="differential testing of every fastlog field appender against the standard library renderers: exhaustive over all uint16/uint8 values, every byte in every MAC position, all 256 IPv6 zero-group layouts x 5 group shapes (net.IP and netip.Addr), rapid-drawn multi-field lines through ToString and Write, over-long arrays after prefixes of every length, and String() of every valid view / table entry",
+                note="array framing (\"[a, b,]\") is taken from the code, the statement only fixes element texts and brackets; lines whose reference text exceeds the 2048-byte buffer are outside the statement (documented precondition) except for the three array appenders",
+                tech="property-based differential testing against stdlib renderers (rapid) + exhaustive value-space enumeration"),
     "C15": dict(level="exploration",
                 text="generated-input search against an independent RFC 1071 implementation: exhaustive for lengths 0..3, every single-word perturbation of carriers of every length, biased random strings, metamorphic split/insert relations, and IPv4 headers completed by the library verified by the reference",
                 note="trusts ref.Checksum (15 lines, stdlib only); inputs up to an Ethernet frame (1522 bytes)",
